@@ -246,7 +246,11 @@ def toStr (c : Bytes) : Except PyErr Str := do
   if t = TYPE_IMPLICIT_SHA256 then pure ("sha256digest=".toList ++ pyHex v)
   else if t = TYPE_PARAMETERS_SHA256 then pure ("params-sha256=".toList ++ pyHex v)
   else match altUriOfType t with
-    | some s => pure (s ++ '=' :: toDec (beVal v))
+    | some s =>
+      -- the number shorthand only for a nonNegativeInteger (1, 2, 4 or 8 bytes); any other value is printed
+      -- in the generic form (so `to_str` never raises on a well-formed component: no 4300-digit limit)
+      if v.length = 1 ∨ v.length = 2 ∨ v.length = 4 ∨ v.length = 8 then pure (s ++ '=' :: toDec (beVal v))
+      else pure (typePrefix t ++ escBytes v)
     | none => pure (typePrefix t ++ escBytes v)
 
 /-- `Component.to_number` -/
